@@ -235,15 +235,15 @@ func (f forwarder) Push(uri string, arg interface{}, setting ...erpc.MessageSett
 // ---------------------------------------------------------------- world
 
 type world struct {
-	backend, proxyP, authP         erpc.Peer
-	bl, pl, al                     *Listener
-	cli, plainCli, fwdCli          erpc.Peer
-	authGood, authBad, authMulti   erpc.Peer
-	mu                             sync.Mutex
-	fwd                            erpc.Session
-	direct, viaProxy               erpc.Session
-	fwdRes                         chan fwdResult
-	deadAddr                       string
+	backend, proxyP, authP       erpc.Peer
+	bl, pl, al                   *Listener
+	cli, plainCli, fwdCli        erpc.Peer
+	authGood, authBad, authMulti erpc.Peer
+	mu                           sync.Mutex
+	fwd                          erpc.Session
+	direct, viaProxy             erpc.Session
+	fwdRes                       chan fwdResult
+	deadAddr                     string
 }
 
 const cipherKey = "c15-cipherkey-16"
@@ -326,7 +326,7 @@ func (w *world) backendUp() {
 	}
 	s, stat := w.fwdCli.Dial(w.bl.Addr)
 	if !stat.OK() {
-		Must(fmt.Errorf("forwarder dial: %v", stat))
+		abort("forwarder dial: %v", stat)
 	}
 	w.fwd = s
 }
@@ -345,7 +345,7 @@ func (w *world) directSess() erpc.Session {
 	if !alive(w.direct) {
 		s, stat := w.cli.Dial(w.bl.Addr)
 		if !stat.OK() {
-			Must(fmt.Errorf("direct dial: %v", stat))
+			abort("direct dial: %v", stat)
 		}
 		w.direct = s
 	}
@@ -356,7 +356,7 @@ func (w *world) proxySess() erpc.Session {
 	if !alive(w.viaProxy) {
 		s, stat := w.plainCli.Dial(w.pl.Addr)
 		if !stat.OK() {
-			Must(fmt.Errorf("proxy dial: %v", stat))
+			abort("proxy dial: %v", stat)
 		}
 		w.viaProxy = s
 	}
@@ -378,7 +378,7 @@ func (w *world) waitFwd() fwdResult {
 	case r := <-w.fwdRes:
 		return r
 	case <-time.After(longWait):
-		Must(fmt.Errorf("the proxy never called its forwarder"))
+		abort("the proxy never called its forwarder")
 	}
 	return fwdResult{}
 }
@@ -404,12 +404,20 @@ func (w *world) closeProxySide(clientAddr string) {
 
 // ---------------------------------------------------------------- operations
 
+// opAbort is raised when an operation cannot even be carried out (a dial to a live listener
+// fails, a handler is never entered, ...): with a framework that still works this never
+// happens; it is reported as an oracle failure instead of killing the run.
+type opAbort struct{ msg string }
+
+func abort(f string, a ...interface{}) { panic(opAbort{fmt.Sprintf(f, a...)}) }
+
 type opResult struct {
-	kind  string   // model-level operation name
-	args  []string // model-level arguments (value syntax)
-	obs   triple   // what the application observed
-	held  *erpc.Status
-	human string
+	broken string   // non-empty: the operation could not be carried out
+	kind   string   // model-level operation name
+	args   []string // model-level arguments (value syntax)
+	obs    triple   // what the application observed
+	held   *erpc.Status
+	human  string
 }
 
 func fwdVal(r fwdResult) string {
@@ -439,14 +447,26 @@ var opWeights = map[string]int{
 func (w *world) closedSession() erpc.Session {
 	s, stat := w.plainCli.Dial(w.bl.Addr)
 	if !stat.OK() {
-		Must(fmt.Errorf("dial: %v", stat))
+		abort("dial: %v", stat)
 	}
 	s.Close()
 	return s
 }
 
-func (w *world) run(kind string, cfg *RunCfg, tag string) opResult {
-	r := opResult{kind: kind}
+func (w *world) run(kind string, cfg *RunCfg, tag string) (r opResult) {
+	r = opResult{kind: kind}
+	defer func() {
+		if p := recover(); p != nil {
+			a, ok := p.(opAbort)
+			if !ok {
+				panic(p)
+			}
+			r.broken = a.msg
+			r.human = kind
+			r.obs = triple{nil_: true}
+			r.held = nil
+		}
+	}()
 	var res int
 	switch kind {
 	case "call_ok":
@@ -535,7 +555,7 @@ func (w *world) run(kind string, cfg *RunCfg, tag string) opResult {
 			select {
 			case <-slowEntered:
 			case <-time.After(longWait):
-				Must(fmt.Errorf("slow handler never entered"))
+				abort("slow handler never entered")
 			}
 			w.bl.KillConns() // the backend drops every connection while the call is pending
 			<-cmd.Done()
@@ -563,7 +583,7 @@ func (w *world) run(kind string, cfg *RunCfg, tag string) opResult {
 		w.drainFwd()
 		s, stat := w.plainCli.Dial(w.pl.Addr)
 		if !stat.OK() {
-			Must(fmt.Errorf("proxy dial: %v", stat))
+			abort("proxy dial: %v", stat)
 		}
 		st := s.Push("/note/tell", "p"+tag)
 		fr := w.waitFwd()
@@ -611,7 +631,7 @@ func (w *world) run(kind string, cfg *RunCfg, tag string) opResult {
 		// a client without the secure plugin claims an encrypted body
 		s, stat := w.plainCli.Dial(w.bl.Addr)
 		if !stat.OK() {
-			Must(fmt.Errorf("dial: %v", stat))
+			abort("dial: %v", stat)
 		}
 		st := s.Call("/math/add", []byte(`{"cipherversion":"bogus-`+tag+`","ciphertext":"00"}`), &res,
 			erpc.WithBodyCodec('j'), secure.WithSecureMeta()).Status()
@@ -659,10 +679,15 @@ func main() {
 	distinct := DistinctSet{}
 
 	// baseline: the probe set on the pristine process
+	broken := 0
 	baseProbe := map[string]triple{}
 	base := snapshot()
 	for _, k := range probeSet {
 		r := w.run(k, cfg, "probe")
+		if r.broken != "" {
+			broken++
+			st.Fail(-1, "operation-broken", fmt.Sprintf("probe %s could not be carried out on a fresh process: %s", k, r.broken), "probe set")
+		}
 		baseProbe[k] = r.obs
 	}
 	after := snapshot()
@@ -682,6 +707,7 @@ func main() {
 		var results []opResult
 		var kinds []string
 		rootKey, rootUser := "", ""
+		caseBroken := false
 		keyFor := func(op, dflt string) string {
 			if strings.HasPrefix(op, "bind") {
 				if rootUser != "" {
@@ -698,6 +724,11 @@ func main() {
 		failing := false
 		step := func(k, tag string, probe bool) {
 			r := w.run(k, cfg, tag)
+			if r.broken != "" {
+				broken++
+				caseBroken = true
+				st.Fail(i, "operation-broken", fmt.Sprintf("operation %s could not be carried out: %s", k, r.broken), strings.Join(kinds, " "))
+			}
 			results = append(results, r)
 			if probe {
 				kinds = append(kinds, "?"+k)
@@ -759,8 +790,16 @@ func main() {
 		for _, t := range final {
 			snap = append(snap, t.val())
 		}
-		cw.Add(VL(VL(ops...), VL(names...)), VL(VL(obs...), VL(heldVals...), VL(snap...)))
+		if !caseBroken {
+			cw.Add(VL(VL(ops...), VL(names...)), VL(VL(obs...), VL(heldVals...), VL(snap...)))
+		}
 		restore()
+		if broken >= 3 {
+			st.Evaluations = i + 1
+			st.DistinctNontrivial = len(distinct)
+			st.Write(cfg, cw)
+			return
+		}
 		if failing {
 			distinct.Add(strings.Join(kinds[:n], " "))
 		}
@@ -775,10 +814,11 @@ func main() {
 	st.Write(cfg, cw)
 }
 
-// classKey names the failure class: which component altered which kind of shared status.
+// classKey names the failure class: which component altered which kind of shared status
+// (plugin/proxy's rewrite is recognised by the Bad Gateway code it stores).
 func classKey(op string, s *shared) string {
 	switch {
-	case strings.HasPrefix(op, "proxy") && s.pkg != "user":
+	case strings.HasPrefix(op, "proxy") && s.pkg != "user" && s.p.Code() == erpc.CodeBadGateway:
 		return "proxy-mutates-sentinel"
 	case s.pkg == "user":
 		return "binder-mutates-errfunc-status"
